@@ -11,7 +11,7 @@ joined by ',' / ', ', one line per value}. Each use of a leniency is reported so
 import hashlib, hmac, itertools, re
 
 AUTH = b"x-ms-azure-host-authorization"
-AUTH_RE = re.compile(rb"^Azure-HMAC-SHA256 ([0-9a-fA-F-]{36}) ([0-9a-f]{64})$")
+AUTH_RE = re.compile(rb"^Azure-HMAC-SHA256 ([^ ]{1,64}) ([0-9a-f]{64})$")     # the key id is whatever the host called the key
 
 
 def query_pairs(target):
